@@ -673,16 +673,21 @@ func init() {
 		Level: "exploration",
 		Rule: "PRNG-generated callback lists (1-6 callbacks: contains / upper-case contains under insensitivity / case-sensitive / regexp in lower case, end-anchored, " +
 			"with own (?i) / contains+regexp / not-contains present-before, present-after, absent, other case / once / complete / complete without function / " +
-			"reset-output off / next-timeout) against a causal scripted device (answers typed by the callbacks advance the dialogue; echo on/off; repeated questions; " +
-			"several keywords in one text; decoys sharing keywords) under PRNG segmentation (1..16-byte, whole, geometric, mixed reads). " +
+			"reset-output off / next-timeout; in 55 % of the cases trigger texts, patterns, not-contains texts and device output use letters with case from the Latin-1 supplement, " +
+			"Cyrillic, Greek and a few whose case mapping changes the byte length, printed by the device in lower / Title / UPPER case) against a causal scripted device (answers typed by the callbacks advance the dialogue; echo on/off; repeated questions; " +
+			"several keywords in one text; decoys sharing keywords) under PRNG segmentation (1..16-byte, whole, geometric, mixed reads; boundaries fall inside multi-byte letters); texts of very different length so that the output a callback " +
+			"object is checked against shrinks and grows; 40 % of the chains with an input repeat the operation 2-3 times with the same callback objects. " +
 			"Every firing is judged against the transport read log (argument = chunks since last reset up to a boundary; no trigger held at the boundaries in between; " +
 			"fired callback = first holding in list order), then the end of the operation (result, once error, timeout error and its time). " +
 			"Non-trivial = at a judged boundary >= 2 triggers held at once or a not-contains clause suppressed a trigger, or a not-contains / regexp / once callback ran, " +
 			"or the operation ended with the once error. Distinct = distinct descriptor hash.",
 		Assumptions: []string{
-			"device output is ASCII without CR/ESC, so one transport read is one unmodified chunk of the operation (checked by the generator)",
+			"device output is valid UTF-8 without CR/ESC, so one transport read is one unmodified chunk of the operation (checked by the generator)",
+			"case-insensitive = output and text lower-cased with the Unicode simple case mapping on both sides (patterns matched against the lower-cased output); letters for which other readings exist " +
+				"(sharp s, final sigma, dotless/dotted i, micro sign) and invalid UTF-8 are not generated; every vocabulary word round-trips lower->upper->lower (checked at start-up)",
+			"a once callback stays spent across the operations of one session (the flag lives in the callback object)",
 			"every callback that is neither once nor complete resets the output and its trigger does not hold on the empty output (otherwise the statement itself implies endless refiring); checked by brute force with the reference trigger",
-			"patterns are written in lower case, or carry their own (?i), or belong to a case-sensitive callback; the reference matches them with (?i) against the original output",
+			"patterns are written in lower case, or carry their own (?i), or belong to a case-sensitive callback",
 			"the boundary of the previous firing is examined again only if a poll came back empty, so a trigger holding there is not required to fire when later chunks exist",
 			"'timed out although a trigger held' is a violation only if the chunk had been delivered >= 300 ms before the deadline and the load canary was quiet; otherwise inconclusive",
 			"the timeout in force after a next-timeout callback is that value for the next loop; for later loops either that value or the operation's timeout is accepted; " +
